@@ -175,7 +175,7 @@ func TestC18(t *testing.T) {
 	c.FailIfViolations(t)
 
 	// (c) longer random sequences, every step checked
-	rapid.Check(t, func(rt *rapid.T) {
+	checkRapid(t, c, func(rt *rapid.T) {
 		ops := rapid.SliceOfN(rapid.IntRange(0, 15), 5, 64).Draw(rt, "ops")
 		c.Eval()
 		c.NonTrivial(ev.HashStr("rseq", ctSeqString(ops)))
